@@ -41,3 +41,52 @@ pub fn decide_upper(what: &str, bound: f64, range: f64, trials: u64, seed: u64, 
         what, t.mean, t2.mean, bound, t.tol, t2.tol
     )))
 }
+
+/// one statistical comparison of a multi-statistic experiment
+#[derive(Clone, Debug)]
+pub enum Want {
+    /// E X = mu for X in [0,1]; optional variance bound valid under the hypothesis
+    Mean { mu: f64, var_h: Option<f64> },
+    /// E Y <= bound for Y in [0, range]
+    Upper { bound: f64, range: f64 },
+}
+#[derive(Clone, Debug)]
+pub struct Check {
+    pub name: String,
+    pub want: Want,
+}
+
+fn run_check(c: &Check, a: &Acc) -> MeanTest {
+    match &c.want {
+        Want::Mean { mu, var_h } => mean_test(a, *mu, *var_h, L),
+        Want::Upper { bound, range } => upper_test(a, *bound, *range, L),
+    }
+}
+
+/// `sample(seed, trials)` returns one accumulator per check. A check must fail on the first run AND on an independent
+/// run with 4x the trials to be reported.
+pub fn decide_multi(what: &str, checks: &[Check], trials: u64, seed: u64, sample: &dyn Fn(u64, u64) -> Vec<Acc>) -> Result<Vec<MeanTest>, Fail> {
+    let accs = sample(seed, trials);
+    assert_eq!(accs.len(), checks.len());
+    let first: Vec<MeanTest> = checks.iter().zip(accs.iter()).map(|(c, a)| run_check(c, a)).collect();
+    let failing: Vec<usize> = (0..checks.len()).filter(|i| !first[*i].ok).collect();
+    if failing.is_empty() {
+        return Ok(first);
+    }
+    let accs2 = sample(crate::util::splitmix64(seed ^ 0xC0FFEE), trials * 4);
+    for i in failing {
+        let t2 = run_check(&checks[i], &accs2[i]);
+        if !t2.ok {
+            let t1 = &first[i];
+            let rel = match checks[i].want {
+                Want::Mean { .. } => "differs from the exact value",
+                Want::Upper { .. } => "exceeds the bound",
+            };
+            return Err(Fail::new(format!(
+                "{}: {}: empirical value {:.6e} (T = {}), then {:.6e} on an independent seed (T = {}), {} {:.6e} by more than the rigorous tolerances {:.3e} / {:.3e}",
+                what, checks[i].name, t1.mean, trials, t2.mean, 4 * trials, rel, t1.target, t1.tol, t2.tol
+            )));
+        }
+    }
+    Ok(first)
+}
